@@ -36,7 +36,13 @@ RULE = ("scenarios: file accessor (deep/flat x gzip/no-gzip) with 2 chunks "
         "EIO, EROFS | EIO, EACCES, ENOENT}, short write of 1 and n-1 bytes "
         "(retry fails with ENOSPC), kill before / after. Bound 1 (quick), "
         "bound 2 (thorough: fault->fault, short-write->kill, fault->kill). "
-        "One evaluation = one deviating execution; all are non-trivial.")
+        "One evaluation = one deviating execution; all are non-trivial. "
+        "Kernel-level family: the operation runs in a child process under "
+        "strace; points = every read- and write-class system call on a file "
+        "of the dataset, whoever issues it (Python's io layer or C code "
+        "such as numpy.fromfile / ndarray.tofile, which the in-process seam "
+        "cannot see); answers: EIO for reads, ENOSPC (thorough: and EIO) "
+        "for writes, process killed before a write; bound 1; same oracles.")
 ASSUMPTIONS = [
     "crash model = process death (SIGKILL) at system-call granularity with "
     "real user-space buffering; power loss with reordering of unsynced "
@@ -722,21 +728,158 @@ def conformance_unit(col, items):
         col.extra("conformance_replays")
 
 
+# ---- kernel-level enumeration ----------------------------------------------
+# The seam sees the system calls Python's own io layer makes. I/O issued by C
+# code (numpy.fromfile / ndarray.tofile, a C extension) is invisible to it, so
+# a second enumeration runs at the kernel: the operation is executed in a
+# child process under strace, every read- and write-class system call it
+# makes on a file of the dataset is a point, and each point is answered by an
+# error (or the process is killed before it), one deviation per run.
+def kernel_scenarios(tier):
+    out = []
+    for scn in file_scenarios() + sharded_scenarios():
+        if scn.get("watch_tmp"):
+            continue
+        if tier == "quick":
+            # quick: the sharded scenarios (small chunks) and the raw,
+            # sub-directory file scenarios
+            if scn["kind"] == "file" and (scn["encoding"] != "raw"
+                                          or scn["flat"]):
+                continue
+            if scn.get("big"):
+                continue
+        out.append(scn)
+    return out
+
+
+def _observe(d, scn, model):
+    obs = {}
+    try:
+        rd = open_pio(d, scn, fresh=True)
+    except Exception as exc:
+        return {"open": ("exc", type(exc).__name__)}
+    for name in model:
+        try:
+            if isinstance(name, tuple):
+                obs[name] = ("ok", rd.read_chunk(KEY, name))
+            else:
+                obs[name] = ("ok", rd.accessor.fetch_file(name))
+        except Exception as exc:
+            obs[name] = ("exc", type(exc).__name__)
+    sandbox.drop_captured_exit_handlers()
+    return obs
+
+
+def _kernel_outcome(res):
+    if res["outcome"] == "ok":
+        return ("ok", res.get("result"))
+    if res["outcome"] == "exc":
+        return ("exc", res["type"], "", res["mro"])
+    if res["outcome"] == "killed":
+        return ("killed",)
+    raise RuntimeError("child of the kernel-level run failed: %r" % (res,))
+
+
+def kernel_point(col, scn, full_model, ref, point, what):
+    from mc import conformance, runner
+    cls, rel, when = point
+    case = {"scenario": scn, "deviations": {},
+            "kernel": {"class": cls, "file": rel, "when": when,
+                       "answer": what}}
+    d = sandbox.fresh_dir("c18k")
+    try:
+        setup(d, scn)
+        res, injected = conformance.kernel_inject(
+            d, scn, runner.scratch_root(), cls, rel, when, what)
+        if not injected:
+            col.ev(1, 1, "deviation-not-reached")
+            return
+        out = _kernel_outcome(res)
+        run = {"outcome": out, "retry": None, "tree": dir_tree(d),
+               "obs": _observe(d, scn, full_model), "model": full_model,
+               "applied": [(0, what)], "points": [],
+               "opened_for_write": list(target_paths(scn)) or ["?"]}
+        if scn["kind"] == "sharded" and scn["op"] != "read":
+            run["retry"] = ("unknown",)     # -> the target counts as opened
+        good = judge(col, case, scn, ref, run,
+                     {0: ("kill-before",) if out[0] == "killed"
+                      else ("errno", what)})
+        col.ev(1, 1, ("kernel-kill-" if out[0] == "killed"
+                      else "kernel-fault-") + ("ok" if good else "bad"))
+    finally:
+        sandbox.drop_captured_exit_handlers()
+        sandbox.rm(d)
+
+
+def kernel_reference(scn):
+    """fault-free child run under strace: (points, reference run) or None"""
+    from mc import conformance, runner
+    d = sandbox.fresh_dir("c18k")
+    try:
+        setup(d, scn)
+        calls, res = conformance.kernel_calls(d, scn, runner.scratch_root())
+        if res["outcome"] != "ok":
+            raise RuntimeError("fault-free kernel-level run fails: %r"
+                               % (res,))
+        ref = {"outcome": _kernel_outcome(res), "tree": dir_tree(d)}
+    finally:
+        sandbox.drop_captured_exit_handlers()
+        sandbox.rm(d)
+    seen = {}
+    points = []
+    for cls, rel in calls:
+        seen[(cls, rel)] = seen.get((cls, rel), 0) + 1
+        points.append((cls, rel, seen[(cls, rel)]))
+    return points, ref
+
+
+def kernel_answers(cls, tier):
+    if cls == "read":
+        return ["error=EIO"]
+    a = ["error=ENOSPC", "signal=SIGKILL"]
+    if tier == "thorough":
+        a.insert(1, "error=EIO")
+    return a
+
+
+def kernel_unit(col, scn, tier):
+    from mc import conformance
+    ok, why = conformance.strace_available()
+    if not ok:
+        col.ev(1, 0, "kernel-family-skipped")
+        return
+    full_model = execute(scn, {})["model"]
+    points, ref = kernel_reference(scn)
+    col.extra("kernel_points", len(points))
+    for pt in points:
+        for what in kernel_answers(pt[0], tier):
+            kernel_point(col, scn, full_model, ref, pt, what)
+
+
 def units(tier):
     u = [{"scn": s, "tier": tier}
          for s in file_scenarios() + sharded_scenarios()]
     u.append({"kind": "conformance-plan", "tier": tier})
+    u += [{"kind": "kernel", "scn": s, "tier": tier}
+          for s in kernel_scenarios(tier)]
     return u
 
 
 def space(tier):
     return {"file_scenarios": len(file_scenarios()),
             "sharded_scenarios": len(sharded_scenarios()),
+            "kernel_level_scenarios": len(kernel_scenarios(tier)),
             "bound": 1 if tier == "quick" else 2}
 
 
 def run_unit(u):
     col = Collector()
+    if u.get("kind") == "kernel":
+        kernel_unit(col, u["scn"], u["tier"])
+        col.sample({"scenario": u["scn"], "deviations": {},
+                    "kernel": {"class": "write", "file": "info", "when": 1,
+                               "answer": "error=ENOSPC"}})
+        return col.result()
     if u.get("kind") == "conformance-plan":
         # a deterministic subset validates the SEAM (it does not decide the
         # property): 12 deviations in quick, every 7th in thorough
@@ -765,6 +908,13 @@ def replay(case):
     scn = case["scenario"]
     ref = execute(scn, {})
     devs = {int(k): tuple(a) for k, a in case["deviations"].items()}
+    if case.get("kernel"):
+        k = case["kernel"]
+        full_model = ref["model"]
+        points, kref = kernel_reference(scn)
+        kernel_point(col, scn, full_model, kref,
+                     (k["class"], k["file"], k["when"]), k["answer"])
+        return col.records()
     if not devs:
         if ref["outcome"][0] != "ok":
             col.violation("C18/fault-free-run-fails/" + str(
